@@ -621,6 +621,16 @@ pub fn enumerate(thorough: bool) -> Vec<WSpec> {
             }
         }
     }
+    // (f) name classes: names that end in a step marker, carry a step-like suffix, or contain blanks that are not
+    // the separators of the format (no-break space, ideographic space), as state name (bit-vector and array), as
+    // input name, in a witness with and without steps
+    for name in ["en#", "x@", "a@@", "q#@", "x@1", "y#0", "@", "#", "a@1#2", "a\u{a0}b", "a\u{3000}b", "\u{a0}", "é@", "a=b", "[3]", "0", "-1"] {
+        let nm = Some(name.to_string());
+        out.push(WSpec { failed: vec![0], states: vec![(nm.clone(), SVal::Bv(Bv::from_u64(3, 5)))], inputs: vec![(Some("i".into()), 1)], frames: vec![vec![Bv::from_u64(1, 1)]] });
+        out.push(WSpec { failed: vec![0], states: vec![(Some("s".into()), SVal::Bv(Bv::from_u64(3, 5)))], inputs: vec![(nm.clone(), 3)], frames: vec![vec![Bv::from_u64(3, 6)], vec![Bv::from_u64(3, 1)]] });
+        out.push(WSpec { failed: vec![1], states: vec![(nm.clone(), arr_alphabet(2, 1)[9].clone()), (Some("t".into()), SVal::Bv(Bv::from_u64(1, 1)))], inputs: vec![], frames: vec![vec![]] });
+        out.push(WSpec { failed: vec![7], states: vec![(nm.clone(), SVal::Bv(Bv::from_u64(1, 1)))], inputs: vec![], frames: vec![] });
+    }
     // (e) many of everything: two-digit state / input / frame / property numbers, and values wider than two words
     {
         let ns = 12usize;
